@@ -73,7 +73,7 @@ def eos_residual(ctx):
 
     def run(x):
         bound = {p: reduced_args().get(p, Num(nf.sym(p))) for p in fi0.params}
-        val = x._exec_function(fi0, bound, None, None, None)
+        val = x.enter(fi0, bound, None, None, None)
         evs = [e for e in x.events if e.kind == "ext_call" and e.data["callee"].startswith("scipy.optimize.")]
         if len(evs) != 1:
             raise AnalysisError(f"z_factor_DAK: expected exactly one scipy.optimize call, found {len(evs)}")
